@@ -267,3 +267,83 @@ func VxC12StateMachineObligations() {
 		check(acts, false, lockedRoundPre, lockedPre)
 	}
 }
+
+// C12-H3 (lines 22-33 of the paper, one step from an arbitrary lock state): the machine is in round
+// r in {1,2} at step propose with an arbitrary lock (lockedRound in [-1, r-1], locked value in
+// {1,2}); the vote counter already holds a prevote quorum for some value at some earlier round; a
+// proposal for round r arrives with arbitrary value and valid round. The prevote the node sends
+// must be exactly the one the algorithm prescribes:
+//   vr = -1                      : v if valid(v) and (lockedRound = -1 or lockedValue = v), else nil
+//   vr >= 0 with a polka at vr   : v if valid(v) and (lockedRound <= vr or lockedValue = v), else nil
+//   otherwise                    : no prevote yet
+func VxC12LockRule() {
+	vx.Bound("N=4 equal-power validators, node 0, height 1; round r in {1,2}; arbitrary lock (round -1..r-1, value {1,2}); polka for an arbitrary value at an arbitrary earlier round; proposal with arbitrary value {1,2} and valid round -1..r-1")
+	const h = types.Height(1)
+	app := &vxApp{next: vxV{1}}
+	for i := 1; i <= 2; i++ {
+		app.valid[i] = vx.Bool("valid")
+	}
+	sm := New[vxV, vxH, vxA](log.NewNopZapLogger(), vxA{0}, app, vxVals{}, h).(*vxSM)
+	r := types.Round(1 + vx.Choice("round", 2))
+	sm.isHeightStarted = true
+	sm.state.round = r
+	sm.state.step = types.StepPropose
+	L := types.Round(vx.I64("lockedRound"))
+	vx.Assume(L >= -1 && L < r)
+	lv := vxValueK("lockedValue")
+	if L >= 0 {
+		sm.state.lockedRound, sm.state.lockedValue = L, &vxV{lv}
+		sm.state.validRound, sm.state.validValue = L, &vxV{lv}
+		vx.Cover("locked")
+	}
+	// a prevote quorum (validators 1,2,3) for value pv at round pr < r
+	pr := types.Round(vx.Choice("polkaRound", int(r)))
+	pv := vxValueK("polkaValue")
+	for _, snd := range []uint64{1, 2, 3} {
+		ok := sm.voteCounter.AddPrevote(&types.Prevote[vxH, vxA]{
+			MessageHeader: types.MessageHeader[vxA]{Height: h, Round: pr, Sender: vxA{snd}}, ID: &vxH{pv}})
+		vx.Assert(ok, "seed-prevote-accepted")
+	}
+	v := vxValueK("value")
+	vr := types.Round(vx.I64("validRound"))
+	vx.Assume(vr >= -1 && vr < r)
+	val := vxV{v}
+	acts := sm.ProcessProposal(&types.Proposal[vxV, vxH, vxA]{
+		MessageHeader: types.MessageHeader[vxA]{Height: h, Round: r, Sender: vxVals{}.Proposer(h, r)},
+		ValidRound:    vr, Value: &val,
+	})
+	var sent *actions.BroadcastPrevote[vxH, vxA]
+	n := 0
+	for _, a := range acts {
+		if p, ok := a.(*actions.BroadcastPrevote[vxH, vxA]); ok {
+			sent = p
+			n++
+		}
+	}
+	valid := app.Valid(val)
+	lockOK22 := L == -1 || lv == v
+	switch {
+	case vr == -1:
+		vx.Cover("first-proposal-rule")
+		vx.Assert(n == 1 && sent.Round == r, "line22-prevotes-once-in-current-round")
+		if n == 1 {
+			vx.Assert((sent.ID != nil) == (valid && lockOK22), "line22-votes-value-iff-valid-and-lock-allows")
+			if sent.ID != nil {
+				vx.Assert((*sent.ID)[0] == v, "line22-votes-the-proposed-value")
+			}
+		}
+	case vr == pr && pv == v:
+		vx.Cover("polka-previous-rule")
+		vx.Assert(n == 1 && sent.Round == r, "line28-prevotes-once-in-current-round")
+		if n == 1 {
+			lockOK28 := L <= vr || lv == v
+			vx.Assert((sent.ID != nil) == (valid && lockOK28), "line28-votes-value-iff-valid-and-unlock-condition")
+			if L > vr && lv != v {
+				vx.Cover("lock-forbids")
+			}
+		}
+	default:
+		vx.Cover("no-rule-enabled")
+		vx.Assert(n == 0, "no-prevote-without-enabled-rule")
+	}
+}
